@@ -280,3 +280,4 @@ pub fn catch<T, F: FnOnce() -> T + std::panic::UnwindSafe>(f: F) -> Result<T, St
 
 pub mod gen;
 pub mod net;
+pub mod res;
